@@ -33,9 +33,10 @@ type Bridge struct {
 	H   int64
 	T   time.Time
 
-	armed map[string]int // site -> calls left until the fault fires (fires when it reaches 0)
-	Fired []string       // faults that fired since the last ResetFired
-	Calls map[string]int
+	armed  map[string]int  // site -> calls left until the fault fires (fires when it reaches 0)
+	panics map[string]bool // sites whose fault is a panic inside the collaborator instead of an error value
+	Fired  []string        // faults that fired since the last ResetFired
+	Calls  map[string]int
 }
 
 var ErrInjected = fmt.Errorf("verif: injected collaborator failure")
@@ -50,8 +51,18 @@ func New(c *chain.Chain) *Bridge {
 
 // Arm makes the k-th call (k>=1) of site from now on fail.
 func (b *Bridge) Arm(site string, k int) { b.armed[site] = k }
-func (b *Bridge) Disarm()                { b.armed = map[string]int{} }
-func (b *Bridge) ResetFired()            { b.Fired = nil }
+func (b *Bridge) Disarm()                { b.armed, b.panics = map[string]int{}, map[string]bool{} }
+
+// ArmPanic is Arm with a panic inside the collaborator as the failure (a transaction handler's panic fails the
+// transaction; the end blocker recovers panics of its steps).
+func (b *Bridge) ArmPanic(site string, k int) {
+	b.armed[site] = k
+	if b.panics == nil {
+		b.panics = map[string]bool{}
+	}
+	b.panics[site] = true
+}
+func (b *Bridge) ResetFired() { b.Fired = nil }
 
 func (b *Bridge) hit(site string) error {
 	b.Calls[site]++
@@ -60,6 +71,10 @@ func (b *Bridge) hit(site string) error {
 		if n <= 0 {
 			delete(b.armed, site)
 			b.Fired = append(b.Fired, site)
+			if b.panics[site] {
+				delete(b.panics, site)
+				panic(fmt.Sprintf("verif: injected collaborator panic at %s", site))
+			}
 			return fmt.Errorf("%w at %s", ErrInjected, site)
 		}
 		b.armed[site] = n
